@@ -1,9 +1,14 @@
 //! Async support for implementing capabilities
 //!
 use std::{
-    sync::{Arc, Mutex},
+    sync::Arc,
     task::{Poll, Waker},
 };
+
+#[cfg(crux_verif)]
+use crate::verif::sync::Mutex;
+#[cfg(not(crux_verif))]
+use std::sync::Mutex;
 
 use futures::Future;
 
@@ -48,8 +53,6 @@ impl<T> Future for ShellRequest<T> {
         self: std::pin::Pin<&mut Self>,
         cx: &mut std::task::Context<'_>,
     ) -> std::task::Poll<Self::Output> {
-        #[cfg(crux_verif)]
-        let _shared_state_scope = crate::verif::LockScope::new("shell_state");
         let mut shared_state = self.shared_state.lock().unwrap();
 
         // If there's still a request to send, take it and send it
@@ -103,8 +106,6 @@ where
                 return;
             };
 
-            #[cfg(crux_verif)]
-            let _shared_state_scope = crate::verif::LockScope::new("shell_state");
             let mut shared_state = shared_state.lock().unwrap();
 
             // Attach the result to the shared state of the future
